@@ -213,10 +213,19 @@ def make_batch(c):
     times = [t0 + timedelta(hours=i) for i in range(n)]
     depth = np.array([unhx(s["depth"]) for s in c["specs"]])
 
+    ded = None
+
     def mk(arr, idx):
+        if arr is ded and ded is not None:
+            # the rate-of-change spectrum comes from another processing chain: the same grid, but its frequency labels
+            # were computed as f0 + i*df (a rounding apart from linspace) and it is stamped at mid-interval.  It is
+            # used bin by bin; labels that are not bit-identical must not make its values disappear.
+            f2 = f.copy()
+            f2[1::2] = np.nextafter(f2[1::2], np.inf)
+            return create_2d_spectrum(f2, d, arr[idx], [times[i] + timedelta(minutes=30) for i in idx],
+                                      np.zeros(len(idx)), np.zeros(len(idx)), depth=depth[idx])
         return create_2d_spectrum(f, d, arr[idx], [times[i] for i in idx], np.zeros(len(idx)), np.zeros(len(idx)),
                                   depth=depth[idx])
-    ded = None
     if c.get("dedt"):
         q = c["dedt"]
         c1, c2, c3 = unhx(q["c1"]), unhx(q["c2"]), unhx(q["c3"])
